@@ -607,7 +607,19 @@ def _arange(I, a, k):
     return A.arange(*a, dtype=k.get("dtype"))
 
 
-@model(np.array, np.asarray)
+@model(np.asarray, np.asanyarray)
+def _asarray(I, a, k):
+    """np.asarray: NO copy when the argument already is an array of the requested dtype (the result IS the argument: writes go through)"""
+    if not _anysym(a, k):
+        return NotImplemented
+    x = a[0]
+    dt = k.get("dtype", a[1] if len(a) > 1 else None)
+    if isinstance(x, SArr) and (dt is None or np.dtype(dt) == x.dtype):
+        return x
+    return _array(I, a, {kk: v for kk, v in k.items() if kk != "copy"})
+
+
+@model(np.array)
 def _array(I, a, k):
     if not _anysym(a, k):
         return NotImplemented
@@ -889,6 +901,8 @@ def _sym_attr(I, obj, name):
         return A.transpose(a)
     if name == "astype":
         def astype(dt, copy=True, **kw):
+            if copy is False and np.dtype(dt) == a.dtype:
+                return a              # ndarray.astype(same dtype, copy=False) returns the array itself
             return A.astype(a, dt)
         return astype
     if name == "copy":
